@@ -332,16 +332,31 @@ func c16Maps(r *report.Run, evals *int64) {
 		name string
 		env  interface{}
 	}{"map with unnamed struct members", anon})
+	tm := c16TypedNamedMap{"a": 1}
+	envs = append(envs, struct {
+		name string
+		env  interface{}
+	}{"members of named map types with methods", map[string]interface{}{"V": c16NamedMap{"a": 1, "s": "x"}, "W": c16TypedNamedMap{"a": 1, "b": 2}, "PW": &tm}})
 	order := int64(1) << 40
 	for _, e := range envs {
 		srcs := []string{"a", "s", "f()", "b", "zz", "Size()", "Twice()", "Total()", "Size", "a + 1", "n"}
 		if e.name == "map with unnamed struct members" {
 			srcs = []string{"Config.MaxSize", "Limits.MaxSize", "Limits.Label", "Deep.MaxSize", "Deep.Label", "Config.MaxSize + Limits.MaxSize + Deep.MaxSize == 7", "Limits.MaxSize + Config.MaxSize == 3", `Deep.Label + Limits.Label == "dl"`}
 		}
+		mustCompile := false
+		if e.name == "members of named map types with methods" {
+			// Go resolves every one of these: the method set of a named map type comes before its elements
+			srcs = []string{"V.Size() == 2", "V.Twice() == 4", "W.Total() == 3", "V.a == 1", `V.s == "x"`, "W.a + W.b == 3", "PW.Total() == 1", "V.Size() + W.Total() == 5"}
+			mustCompile = true
+		}
 		for _, src := range srcs {
 			*evals++
 			order++
 			p, err := c16Compile(src, expr.Env(e.env))
+			if err != nil && mustCompile {
+				r.Report(report.Violation{Sub: "map-env", Kind: "go-resolvable-member rejected", Witness: src + " on " + e.name, Order: order, Detail: map[string]interface{}{"error": err.Error()}})
+				continue
+			}
 			if err != nil {
 				if strings.HasPrefix(err.Error(), "PANIC") {
 					r.Report(report.Violation{Sub: "map-env", Kind: "panic", Witness: src + " on " + e.name, Order: order, Detail: map[string]interface{}{"error": err.Error()}})
